@@ -41,6 +41,15 @@ def pure_helpers(fi) -> Dict[str, Tuple[ast.FunctionDef, ast.AST]]:
             encl_locals.add(sc2.args.vararg.arg)
         if sc2.args.kwarg:
             encl_locals.add(sc2.args.kwarg.arg)
+    # what a nested helper may close over and still be read at its call sites: parameters of the enclosing function
+    # that are never rebound (the same value at definition and at every call)
+    nested_free_ok: Set[str] = set()
+    for sc2 in scopes:
+        stored = {x.id for x in iter_own_nodes(sc2) if isinstance(x, ast.Name) and isinstance(x.ctx, (ast.Store, ast.Del))}
+        for a in sc2.args.args + sc2.args.kwonlyargs + sc2.args.posonlyargs:
+            if a.arg not in stored:
+                nested_free_ok.add(a.arg)
+    nested_locals = encl_locals - nested_free_ok
     for sc_ in scopes:
         for s_ in sc_.body:
             if isinstance(s_, ast.FunctionDef) and s_ is not fi.node and s_.name not in ph:
@@ -51,7 +60,7 @@ def pure_helpers(fi) -> Dict[str, Tuple[ast.FunctionDef, ast.AST]]:
                 bound_inside = {x.id for x in ast.walk(rv) if isinstance(x, ast.Name) and isinstance(x.ctx, ast.Store)}
                 free = {x.id for x in ast.walk(rv) if isinstance(x, ast.Name) and isinstance(x.ctx, ast.Load)} - params - bound_inside
                 # closed over nothing but module-level names (no locals of the enclosing function): safe to read anywhere
-                if not (free & encl_locals) and s_.name not in free and not any(isinstance(x, (ast.Yield, ast.Await, ast.NamedExpr)) for x in ast.walk(rv)):
+                if not (free & nested_locals) and s_.name not in free and not any(isinstance(x, (ast.Yield, ast.Await, ast.NamedExpr)) for x in ast.walk(rv)):
                     ph[s_.name] = (s_, rv)
     # module-level functions of the same module, and methods of the same class (keyed `self.<name>`)
     mod_funcs = [s_ for s_ in fi.module.tree.body if isinstance(s_, ast.FunctionDef)]
